@@ -1388,6 +1388,11 @@ func oracle(root string, sc *ck.Script, before, after *sim) []failure {
 		add("reopen-fails", "listing tags of the reopened store: %v", err)
 		return fails
 	}
+	// ... and the reopened store's resolver is exactly what index.json says (agree_reopen: the
+	// loaded index is well-formed, so the next saveIndex would write the same entries)
+	if v := ck.SyncReport(ctx, st, root); v != "ok" && !sc.NoAutoSave {
+		add("reopen-resolver-differs", "after reopening, %s", v)
+	}
 	sort.Strings(got)
 	g := strings.Join(got, ",")
 	if g != before.tagString(sc) && g != after.tagString(sc) {
@@ -1595,8 +1600,10 @@ func runConc(r *common.Rand, delayUS int, rp map[string]string) {
 			}
 		}
 	}
-	if _, err := oci.New(root); err != nil {
+	if st, err := oci.New(root); err != nil {
 		fail("conc-reopen-fails", "oci.New: %v", err)
+	} else if v := ck.SyncReport(context.Background(), st, root); v != "ok" {
+		fail("conc-reopen-resolver-differs", "after reopening, %s", v)
 	}
 	run.Case(id, "C "+common.Hex(sc.JSON()), "CONC")
 }
